@@ -87,6 +87,9 @@ def do_run(ids, props=None):
             continue
         meta = json.load(open(os.path.join(d, 'meta.json')))
         plist = props or [meta['property']]
+        rp_ = os.path.join(d, 'result.json')
+        if os.environ.get('SEED_SKIP_NEWER') and os.path.exists(rp_) and os.path.getmtime(rp_) > float(os.environ['SEED_SKIP_NEWER']):
+            continue        # another worker of the same campaign has done this one
         wt = scratch('r%d-' % os.getpid() + sid)
         out = dict(id=sid, checks={})
         try:
